@@ -57,7 +57,7 @@ class Dev:
 
 
 def gen(rng):
-    pins = list(range(2, 14))
+    pins = list(range(0, 14))      # incl. 0 and 1: a pin number is data, not a truth value
     rng.shuffle(pins)
     apins = [14, 15, 16, 17]
     devs = [Dev("serial", "mon", [])]
